@@ -257,7 +257,15 @@ def _f(values):
          (numpy.nan if row is None else row) for row in values], dtype=numpy.float64)
 
 
+LAT_SPELLINGS = ["degrees_north", "degree_north", "degree_N", "degrees_N", "degreeN", "degreesN"]
+LON_SPELLINGS = ["degrees_east", "degree_east", "degree_E", "degrees_E", "degreeE", "degreesE"]
+
+
 def _detect_attrs(which, detect):
+    if detect.startswith("spelling:"):
+        # "spelling:<a>:<b>": the a-th CF spelling of the latitude units, the b-th of longitude
+        _, a, b = detect.split(":")
+        return {"units": LAT_SPELLINGS[int(a)] if which == "lat" else LON_SPELLINGS[int(b)]}
     if which == "lat":
         return {"units": {"units": "degrees_north"}, "standard_name": {"standard_name": "latitude"},
                 "axis": {"axis": "Y"}, "units_alt": {"units": "degree_N"}}[detect]
@@ -299,10 +307,16 @@ def build_cf1d(spec):
         lon_attrs["bounds"] = n["lon"] + "_bnds"
         bounds_target[n["lon"] + "_bnds"] = ([n["x"], "nv"], _signed_zero(_f(g["lon_bounds"]), g), {})
     lat_dtype, lon_dtype = g.get("coord_dtypes") or ("f8", "f8")
-    target = coords if (g["coords_as"] == "coord" or n["lat"] == n["y"]) else data_vars
-    target[n["lat"]] = ([n["y"]], _exact_cast(g["lat"], lat_dtype), lat_attrs)
-    target = coords if (g["coords_as"] == "coord" or n["lon"] == n["x"]) else data_vars
-    target[n["lon"]] = ([n["x"]], _exact_cast(g["lon"], lon_dtype), lon_attrs)
+    entries = [
+        (coords if (g["coords_as"] == "coord" or n["lat"] == n["y"]) else data_vars,
+         n["lat"], ([n["y"]], _exact_cast(g["lat"], lat_dtype), lat_attrs)),
+        (coords if (g["coords_as"] == "coord" or n["lon"] == n["x"]) else data_vars,
+         n["lon"], ([n["x"]], _exact_cast(g["lon"], lon_dtype), lon_attrs)),
+    ]
+    if g.get("lon_first"):
+        entries.reverse()       # the order in which a file lists its variables means nothing
+    for target, name, value in entries:
+        target[name] = value
     return data_vars, coords, {"Conventions": "CF-1.8"}
 
 
@@ -397,8 +411,12 @@ def build_cf2d(spec):
     if g.get("decoy_first"):
         # a static (j, i) variable without standard_name, placed before the coordinates
         data_vars["decoy"] = (dims, numpy.zeros((nj, ni)), {"long_name": "decoy"})
-    target[n["lat"]] = (dims, cy, lat_attrs)
-    target[n["lon"]] = (dims, cx, lon_attrs)
+    if g.get("lon_first"):
+        target[n["lon"]] = (dims, cx, lon_attrs)
+        target[n["lat"]] = (dims, cy, lat_attrs)
+    else:
+        target[n["lat"]] = (dims, cy, lat_attrs)
+        target[n["lon"]] = (dims, cx, lon_attrs)
     return data_vars, coords, attrs
 
 
@@ -447,6 +465,14 @@ def build_arakawa(spec):
     target = coords if g["coords_as"] == "coord" else data_vars
     for kind in ("face", "left", "back", "node"):
         lat_name, lon_name = names[kind]
+        if kind in (g.get("lon_transposed") or ()):
+            # the longitude of this grid stored (i, j) while its latitude is (j, i): the grid's
+            # dimension order is the latitude's, the longitude is the same field transposed
+            target[lon_name] = (list(dims[kind])[::-1], arrays[kind][..., 0].T.copy(),
+                                {"units": "degrees_east", "long_name": f"Longitude at {kind}"})
+            target[lat_name] = (list(dims[kind]), arrays[kind][..., 1].copy(),
+                                {"units": "degrees_north", "long_name": f"Latitude at {kind}"})
+            continue
         target[lon_name] = (list(dims[kind]), arrays[kind][..., 0].copy(),
                             {"units": "degrees_east", "long_name": f"Longitude at {kind}"})
         target[lat_name] = (list(dims[kind]), arrays[kind][..., 1].copy(),
@@ -666,6 +692,15 @@ def build_raw(spec):
                     if numpy.array_equal(cast.astype(numpy.float64), arr, equal_nan=True):
                         target[key] = (dims, cast, var_attrs)
 
+    if spec.get("coord_layout") == "F":
+        # geometry arrays held column-major in memory (what transposing, meshgrid(indexing="ij").T
+        # or asfortranarray leave behind): same values, same dims, other strides
+        for target in (data_vars, coords):
+            for key, (dims, arr, var_attrs) in list(target.items()):
+                arr = numpy.asarray(arr)
+                if arr.ndim >= 2:
+                    target[key] = (dims, numpy.asfortranarray(arr), var_attrs)
+
     t = spec.get("time")
     if t is not None:
         tattrs = {"units": t["units"], "long_name": "Time"}
@@ -694,7 +729,10 @@ def build_raw(spec):
         vattrs.update(var.get("attrs") or {})
         if var.get("fill") is not None:
             vattrs[var["fill"][0]] = NP_DTYPES[var["dtype"]](var["fill"][1])
-        data_vars[var["name"]] = (var_dim_names(spec, var), raw_array(spec, var), vattrs)
+        values = raw_array(spec, var)
+        if spec.get("data_layout") == "F" and values.ndim >= 2:
+            values = numpy.asfortranarray(values)
+        data_vars[var["name"]] = (var_dim_names(spec, var), values, vattrs)
 
     for dim, labels in (spec.get("dim_coords") or {}).items():
         # a dimension coordinate on a grid dimension: labels that are NOT the positions
